@@ -202,6 +202,21 @@ CHECKS = {
             "Joint deviation bound rather than a full cross product; clock advances only between load() calls; <= 6 records, 3 files. "
             "One known finding (file starting at the timestamp of a flat predecessor is skipped).",
             "DESIGN.md §3 C18"),
+    "C14": ("model_checking",
+            "explicit-state BFS over the real server loop driven by two independent clients: pylogix in-process on a socket shim, and the "
+            "reference codec encoding every request kind byte by byte; array-model and reference-decoder oracles",
+            "Part A: pylogix 1.1.6 runs in-process against the real main.enip_srv_tcp (Register, Forward Open, SendUnitData, Forward "
+            "Close); BFS to closure over (tag store, connected?, pylogix type cache) with every state re-seated from a fresh PLC "
+            "object by real requests; alphabet of 51+22 API calls (Read scalar/element/range/arrays needing >= 3 replies, multi-tag "
+            "reads, Write scalar/element/range/array needing >= 2 fragmented writes, out-of-range index, unknown tag, Close + "
+            "reconnect) over the element types both sides support, plus all call sequences of length <= 3. Values and status strings "
+            "must equal the array model; after Close the forwards table and the session table are empty. Part B: every request kind "
+            "encoded by mc/refcip.py over 7 transports (bare SendRRData, Unconnected Send with/without route path, small and large "
+            "Forward Open connections open simultaneously, bundles unconnected and connected) from every state of the closed store "
+            "graph; every reply must decode with the reference decoder, echo session/context/connection id/sequence, and carry the "
+            "model's values.",
+            "pylogix' API subset (no STRING/UDT); one TCP session at a time; pylogix drops extended status (checked in part B).",
+            "DESIGN.md §3 C14"),
     "C15": ("exploration",
             "complete product personality x request route path x service on freshly configured real simulators (UCMM subclass and "
             "main() argument parsing), access-counting Attribute class; exhaustive route-path text grammar vs reference parser",
